@@ -10,6 +10,7 @@ use servlin::internal::*;
 use servlin::*;
 use std::collections::{HashMap, HashSet};
 use std::io::{Read, Write};
+use std::future::Future;
 use std::sync::{Arc, Condvar, Mutex};
 use std::time::{Duration, Instant};
 
@@ -452,12 +453,37 @@ pub fn run_stress(args: &Args, mut out: Out) {
         }
         let d_refill = t_phase.elapsed();
         // ---- C13: revocation, at whatever moment the history has reached ----
+        // The stop signal is awaited through a waker that connects to the server's address from INSIDE the delivery of the
+        // signal (the sender wakes the receiver within send()): "releases its listening socket and only then delivers the
+        // stopped signal" is probed at that very instant, not after this thread has woken up.
+        let mut stopped = stopped;
+        let probe = Arc::new(SignalProbe { addr, result: Mutex::new(None), thread: std::thread::current() });
+        let probe_waker = std::task::Waker::from(probe.clone());
+        let mut stop_fut = Box::pin(stopped.async_recv());
+        let mut stop_cx = std::task::Context::from_waker(&probe_waker);
+        let mut stop_seen = match stop_fut.as_mut().poll(&mut stop_cx) {
+            std::task::Poll::Ready(r) => Some(r.is_ok()),
+            std::task::Poll::Pending => None,
+        };
         emit("RevokeBegin", 0, 0);
         drop(permit);
         emit("RevokeDone", 0, 0);
-        match stopped.recv_timeout(Duration::from_secs(5)) {
-            Ok(()) => emit("StoppedReceived", 0, 0),
-            Err(_) => emit("StopTimeout", 0, 0),
+        let stop_deadline = Instant::now() + Duration::from_secs(5);
+        while stop_seen.is_none() && Instant::now() < stop_deadline {
+            match stop_fut.as_mut().poll(&mut stop_cx) {
+                std::task::Poll::Ready(r) => stop_seen = Some(r.is_ok()),
+                std::task::Poll::Pending => std::thread::park_timeout(Duration::from_millis(20)),
+            }
+        }
+        match stop_seen {
+            Some(true) => emit("StoppedReceived", 0, 0),
+            _ => emit("StopTimeout", 0, 0),
+        }
+        drop(stop_fut);
+        match *probe.result.lock().unwrap() {
+            Some(true) => emit("SignalConnectAccepted", 0, 0),
+            Some(false) => emit("SignalConnectRefused", 0, 0),
+            None => {}
         }
         drop(held_fds.take());
         // a connect after the stop signal must not be served
@@ -541,3 +567,21 @@ pub fn run_stress(args: &Args, mut out: Out) {
 
 #[allow(dead_code)]
 fn unused(_: HashMap<u8, u8>, _: Value) {}
+
+
+/// Waker of the stop signal's receiver: runs inside the sender's send()/drop and connects to the server's address there.
+struct SignalProbe {
+    addr: std::net::SocketAddr,
+    result: Mutex<Option<bool>>,
+    thread: std::thread::Thread,
+}
+impl std::task::Wake for SignalProbe {
+    fn wake(self: Arc<Self>) {
+        let mut g = self.result.lock().unwrap();
+        if g.is_none() {
+            *g = Some(std::net::TcpStream::connect_timeout(&self.addr, Duration::from_millis(300)).is_ok());
+        }
+        drop(g);
+        self.thread.unpark();
+    }
+}
